@@ -33,7 +33,7 @@ MC = {
     'thorough': [
         ('qual n=3 t=1 Byzantine dealer, 3 broadcasts + 1 private/receiver', consts(3, 1, [0], [0], 3, 1, 0), 14000),
         ('qual n=3 t=1 Byzantine dealer, slack, 2 broadcasts', consts(3, 1, [0], [0], 2, 1, 1), 14000),
-        ('qual n=4 t=1 Byzantine dealer, 2 broadcasts', consts(4, 1, [0], [0], 2, 1, 0), 14000),
+        ('qual n=4 t=1 Byzantine dealer, 1 broadcast + 1 private/receiver', consts(4, 1, [0], [0], 1, 1, 0), 14000),   # 1.8 M states; with 2 broadcasts the grown grammar no longer finishes in two hours
         ('qual n=3 t=1 honest dealer, Byzantine participant, 4 broadcasts', consts(3, 1, [0], [1], 4, 0, 1), 14000),
         ('joint-feldman n=3 t=1 one Byzantine, 2 broadcasts + 1 private/receiver', consts(3, 1, [0, 1, 2], [0], 2, 1, 0), 14000),
     ],
